@@ -66,6 +66,7 @@ def catalogue(quick):
     # JSON allows NaN: such a region contains no point, so it covers nothing
     cat["n_rect"] = dict(type="RectangularRegion", x1=0, y1=0, x2=float("nan"), y2=3)
     cat["n_disc"] = dict(type="CircularRegion", cx=1.5, cy=1.5, r=float("nan"))
+    cat["neg_disc"] = dict(type="CircularRegion", cx=1.5, cy=1.5, r=-1.0)      # a negative radius excludes nothing
     return cat
 
 
@@ -131,12 +132,28 @@ def check_pair(w_snap, cfg, old_name, new_name):
     H = __import__("mc.harness", fromlist=["x"])
     H.set_user(False)
     data = dict(cat[new_name], id="a")
+    import copy as _copy
+    w._c12_before_regions = _copy.deepcopy(list(w.plugin.state.excludedRegions))
     try:
         resp = w.plugin.on_api_command("updateExcludeRegion", dict(data))
     except Exception as e:   # noqa
         return "C12 update raised %s: %s" % (type(e).__name__, e)
     now = w.regions_impl()
     old, new = cat[old_name], cat[new_name]
+    # membership as the implementation itself decides it, on a lattice around the old region (whatever the sign of
+    # a radius means to it): a point excluded before the request must be excluded after it
+    import math as _m
+    if old["type"] == "CircularRegion" and not G.is_degenerate(old):
+        cx_, cy_, r_ = float(old["cx"]), float(old["cy"]), abs(float(old["r"]))
+        probe = [(cx_ + dx * r_ / 2, cy_ + dy * r_ / 2) for dx in (-2, -1, 0, 1, 2) for dy in (-2, -1, 0, 1, 2)]
+        before_objs = getattr(w, "_c12_before", None)
+        for (px, py) in probe:
+            was = any(r.containsPoint(px, py) for r in w._c12_before_regions) if hasattr(w, "_c12_before_regions") else None
+            if was:
+                still = any(r.containsPoint(px, py) for r in w.plugin.state.excludedRegions)
+                if not still:
+                    return ("C12 point (%s, %s) was excluded before the update of %r to %r (answered %r) and is not excluded "
+                            "after it, while printing with shrinking disallowed" % (px, py, old, new, resp))
     if resp is not None and hasattr(resp, "status_code"):
         resp = None if int(resp.status_code) in (200, 204) else ("", int(resp.status_code))
     accepted = resp is None
